@@ -27,6 +27,13 @@ CHECKS["C02"] = (
     "DESIGN.md §2 C02",
 )
 
+CHECKS["C03"] = (
+    "recorded-trace checker: RNG tap + SamplerProbe record every normal/uniform draw, proposal, acceptance ratio and decision of the real samplers inside real MCMC-SAEM iterations; a reference recomputes proposal, exp(-D) from scratch and the decision, per decision",
+    "Held on the decisions observed (thousands per run) over every (model kind, sampler kind, latent variable) cell with both outcomes seen, at several inverse temperatures and under normal / huge / tiny / mixed proposal scales. Exploration; the mixture model's cluster-weighted individual regularity is not recomputed (stated).",
+    "Trusts the variables' own definitions for attachment/regularity values (re-evaluated from scratch, independently of the state's cache) and the recorded events returned by the real methods.",
+    "DESIGN.md §2 C03",
+)
+
 NOT_YET = {}
 
 QUICK_BASELINE = (
